@@ -186,6 +186,12 @@ var indexPrograms = []string{
 	"输入A、I\n如何F？\n    输入T、L\n    输出 “{}{” % 【T】\n输出（F：A、I）",
 	"输入A、I\n定义T：\n    其甲设为1\n    如何改？\n        输入V\n        输出 “{#.}}” % 【V】\n令O = （新建T）\n输出 以O（改：A）",
 	"输入A、I\n令B = 【A，I】\n输出 B#I",
+	"输入A、I\n如何甲？\n    如何乙？\n        输出 1\n（显示：（甲））\n输出 1",
+	"输入A、I\n如何甲？\n    如何乙？\n        输出 1\n输出（甲）",
+	"输入A、I\n如何甲？\n    定义丙：\n        其值设为1\n令R = （甲）\n输出 【R，A】",
+	"输入A、I\n如何新建异常？\n    输入M\n    定义X：\n        其值设为1\n抛出异常：“a”！",
+	"输入A、I\n如何新建异常？\n    输入M\n    令Y = A / I\n    拦截异常：\n        输出 1\n抛出异常：“a”！",
+	"输入A、I\n如何新建异常？\n    输入M\n    如何内？\n        输出 A\n    其内容 = （内）\n抛出异常：“a”！",
 	"输入A、I\n令B = 【甲 = A，甲 = I，乙 = 1】\n以B（移除：“甲”）\n输出 “{}” % 【B】",
 	"输入A、I\n令B = 【甲 = A，甲 = I】\n以B（移除：“甲”）\n输出 B之所有值",
 	"输入A、I\n令B = 【甲 = A，乙 = I，甲 = 1】\n以B（移除：I）\n遍历B：\n    （显示：此）\n输出 B之数目",
@@ -226,7 +232,7 @@ func H_Library() {
 
 var varInputTexts = []string{
 	"", "X = 1", "X = Y", "X = 其Y", "X = 1 + “a”", "X = （F）", "X = 【1，2】#5", "X = 1 / 0",
-	"X = 以Y（F）", "X = （新建异常：“a”）", "X 设为 【A=1】#B", "X = 此", "X", "X = ", "= 1", "X = “",
+	"X = 以Y（F）", "X = （新建异常：“a”）", "A = （显示：1），得到X\nB = （X）", "A = （显示：1）\nB = 丙丁", "A = 以“abc”（替换：“a”、“b”），得到X\nB = 以X（无此法）", "A = （显示：1），得到X\nB = X之长度", "X 设为 【A=1】#B", "X = 此", "X", "X = ", "= 1", "X = “",
 }
 
 // H_VarInput: input-variable text.
